@@ -393,19 +393,27 @@ def sep_pair_cases(seps, reps):
 
 def generate(prop, tier, seed, scale=1):
     rng = random.Random("%s-%s" % (prop, seed))
-    # scale > 1: a proof obligation or the tie is broken and check.py asks for a directed search; the saturated
-    # workloads (every feature in every thread) come first and grow with the scale, the random ones are capped
+    # scale > 1: a proof obligation or the tie is broken and check.py asks for a directed search.  The saturated
+    # workloads (every feature in every thread) are the directed part: they are tripled, the random ones doubled.
+    # Everything is handed over in small batches, small thread counts first, so that the first failures (the ones
+    # check.py shrinks) are small and a search that fails everywhere stops early.
+    directed = scale > 1
     if tier == "quick":
-        ncases, reps, nsat = 70 * min(scale, 4), 6, 8 * scale
+        nrand, reps, nsat = 70, 6, 8
     else:
-        ncases, reps, nsat = 500 * min(scale, 4), 12, 60 * scale
-    yield "saturated (every feature in every thread)", [
-        saturated_case(rng, "s%d" % i, rng.choice([2, 3, 4, 8, 16]), reps) for i in range(nsat)]
+        nrand, reps, nsat = 500, 12, 60
+    if directed:
+        nrand, nsat = 2 * nrand, 3 * nsat
+    sizes = sorted(([2, 3, 2, 4, 8, 2, 16, 4] * (nsat // 8 + 1))[:nsat])
+    sat = [saturated_case(rng, "s%d" % i, n, reps if n <= 8 else max(3, reps // 2)) for i, n in enumerate(sizes)]
+    for k in range(0, len(sat), 8):
+        yield "saturated (every feature in every thread) #%d" % (k // 8), sat[k:k + 8]
     cases = []
-    for i in range(ncases):
+    for i in range(nrand):
         n = rng.choice([2, 2, 2, 3, 4, 4, 6, 8, 8, 12, 16])
         cases.append(workload(rng, "g%d" % i, n, reps if n <= 8 else max(3, reps // 2), rng.choice([0.0, 0.5, 0.5, 1.0])))
-    yield "generated", cases
+    for k in range(0, len(cases), 35):
+        yield "generated #%d" % (k // 35), cases[k:k + 35]
     if tier == "quick":
         yield "exhaustive separator pairs over 4 separators x {vec_str,vec_int}, 2 threads", sep_pair_cases(",;:.", 10)
     else:
